@@ -19,18 +19,25 @@ def main():
     for spec in SPECS:
         prop, name, rel, old, new = spec[:5]
         count = spec[5] if len(spec) > 5 else 1
-        path = os.path.join(REPO, rel)
-        src = open(path).read()
         olds = old if isinstance(old, list) else [old]
         news = new if isinstance(new, list) else [new]
-        if any(src.count(o) < 1 for o in olds):
+        rels = rel if isinstance(rel, list) else [rel] * len(olds)
+        diff = ""
+        ok = True
+        for r in dict.fromkeys(rels):
+            src = open(os.path.join(REPO, r)).read()
+            dst = src
+            for rr, o, n in zip(rels, olds, news):
+                if rr != r:
+                    continue
+                if dst.count(o) < 1:
+                    ok = False
+                dst = dst.replace(o, n, count)
+            diff += "".join(difflib.unified_diff(src.splitlines(True), dst.splitlines(True), "a/" + r, "b/" + r))
+        if not ok:
             print("SPEC DOES NOT APPLY:", prop, name)
             bad += 1
             continue
-        dst = src
-        for o, n in zip(olds, news):
-            dst = dst.replace(o, n, count)
-        diff = "".join(difflib.unified_diff(src.splitlines(True), dst.splitlines(True), "a/" + rel, "b/" + rel))
         with open(os.path.join(out, "%s-%s.patch" % (prop, name)), "w") as fh:
             fh.write(diff)
     print("%d specs, %d not applicable" % (len(SPECS), bad))
